@@ -16,6 +16,10 @@ CLAIMED = {
    text="Kernel-checked theorems over any commutative ring, any nesting depth, offsets and mode count: the circuit matrix equals the ordered product of the leaves' matrices embedded at their absolute ranges (cmat_flatten), is unitary when the leaves are, merge = nest, barriers are neutral, add rejects exactly misfitting ranges. The model's construction semantics (add/merge/nest, //, @, barrier, copy) is tied to /repo by running random straight-line programs over named circuit variables on both sides and comparing every variable's matrix and component listing after every statement.",
    note="All theorems closed under the global context.",
    tech="Coq proof by induction over the circuit tree + extracted-model differential correspondence"),
+ "C19": dict(cat="proof", ref="DESIGN.md §7 C19, A.7",
+   text="Kernel-checked theorems over ALL operation histories (re-open, add [pre-executed / keyword], run_parallel/sequential, rerun_failed_parallel/sequential replace/append, progress) and ALL server scripts (accept with id, 429, 500, later statuses per request), by invariant induction on a Gallina model of JobGroup/RemoteJob/PersistentData with the code's write points: (1) every operation, returning or raising, keeps the file the exact image of memory (so re-opening yields the same ids, statuses of sent jobs, metadata, request bodies) for jobs without job_context/unfilled parameters, unless the model's ghost flag reports a status refreshed inside a launch loop that no write followed; re-open/add/run_parallel/progress never raise the flag; (2) identifiers and metadata on disk equal memory after every operation of every history (accepted ids survive a refusal), and a re-open always restores an exact state; (3) the request that would be sent is the same from memory and from the re-opened group; (4) progress() partitions the jobs into the four documented categories, list_* are disjoint; (5) add of a present identifier raises and changes nothing. The full statement is refuted by four vm_compute witnesses (job_context lost on reload; add raising after the append; rerun-loop refresh not written; sequential wait raising after a refresh), each reproduced on /repo and recorded as an open finding. Correspondence: exhaustive short + random histories x scripts on the real JobGroup/RemoteJob/RPCHandler over a temp directory under `responses`, compared with the extracted model after every operation (outcome class, memory, file, re-opened group, requests received, answers consumed, progress).",
+   note="All theorems closed under the global context. The ghost flag `udirty` is instrumentation of the model (no Python counterpart); the theorems state when it can be raised.",
+   tech="Coq proof by invariant induction over operation histories + extracted-model differential correspondence"),
 }
 REASON_PENDING = "not yet built in this development (see DESIGN.md §10 for the build order); no check is claimed"
 
